@@ -6,6 +6,7 @@ import heapdrv
 from props.c13 import _same
 
 ID = "C15"
+THOROUGH_ROUNDS = 2      # rounds of generate() in the thorough tier (new random draws each round)
 COQ_MODULE = "Corr.HeapC"
 SHARD = 60
 RULE = ("seeded random histories as for C13 but without ill-formed calls, every operation followed (with probability "
